@@ -17,29 +17,134 @@ from common import Check
 import c11_formulas as F
 
 PID = "C11"
-HDR = "from verif_c11_helpers import V, END, OFFSET, WAITS, AFTER\n"
-MAIN_COMPOSE = ("scenario Main():\n    setup:\n        {EGO}\n    compose:\n"
-                "        for _ in range(OFFSET()):\n            wait\n        do Sub()\n"
+HDR = "from verif_c11_helpers import *\n"
+SUB_LIMIT = ("        if SUBLIMIT() == 1:\n            terminate after SUBN() steps\n"
+             "        elif SUBLIMIT() == 2:\n            terminate after SUBN() seconds\n")
+SUB_TAIL = ("        for _ in range(WAITS()):\n            wait\n"
+            "        if TERMSTMT():\n            terminate\n")
+# the sub-scenario is invoked with a plain `do`, or stopped from outside by `do ... for/until`
+MAIN_COMPOSE = ("scenario Main():\n    setup:\n        {EGO}\n        terminate when END()\n{LIMIT}    compose:\n"
+                "        for _ in range(OFFSET()):\n            wait\n"
+                "        if DOFORM() == 0:\n            do Sub()\n"
+                "        elif DOFORM() == 1:\n            do Sub() for DOFOR() steps\n"
+                "        elif DOFORM() == 2:\n            do Sub() for DOFOR() seconds\n"
+                "        else:\n            do Sub() until UNTIL()\n"
                 "        for _ in range(AFTER()):\n            wait\n")
 SITES = {
     # requirement declared at top level of the program (compile time; also checked on the sampled scene)
-    "top": HDR + "{EGO}\nrequire {F}\nterminate when END()\n",
+    "top": HDR + "{EGO}\nrequire {F}\nterminate when END()\n{LIMIT}",
     # ... in the setup block of the top-level modular scenario (compile time)
-    "setup": HDR + "scenario Main():\n    setup:\n        {EGO}\n        require {F}\n        terminate when END()\n",
+    "setup": HDR + ("scenario Main():\n    setup:\n        {EGO}\n        require {F}\n        terminate when END()\n{LIMIT}"
+                    "    compose:\n" + SUB_TAIL),
     # ... in the setup block of a sub-scenario invoked at step OFFSET (run time, before the scenario starts)
-    "subsetup": HDR + "scenario Sub():\n    setup:\n        require {F}\n    compose:\n        for _ in range(WAITS()):\n            wait\n" + MAIN_COMPOSE,
+    "subsetup": HDR + "scenario Sub():\n    setup:\n        require {F}\n" + SUB_LIMIT + "    compose:\n" + SUB_TAIL + MAIN_COMPOSE,
     # ... dynamically inside the compose block of the top-level scenario, at step OFFSET
-    "compose": HDR + ("scenario Main():\n    setup:\n        {EGO}\n    compose:\n"
-                      "        for _ in range(OFFSET()):\n            wait\n        require {F}\n"
-                      "        for _ in range(WAITS()):\n            wait\n"),
+    "compose": HDR + ("scenario Main():\n    setup:\n        {EGO}\n        terminate when END()\n{LIMIT}    compose:\n"
+                      "        for _ in range(OFFSET()):\n            wait\n        require {F}\n" + SUB_TAIL),
     # ... dynamically inside the compose block of a sub-scenario
-    "subcompose": HDR + "scenario Sub():\n    compose:\n        require {F}\n        for _ in range(WAITS()):\n            wait\n" + MAIN_COMPOSE,
+    "subcompose": HDR + "scenario Sub():\n    setup:\n        pass\n" + SUB_LIMIT + "    compose:\n        require {F}\n" + SUB_TAIL + MAIN_COMPOSE,
 }
 SITE_ORDER = ["top", "setup", "subsetup", "compose", "subcompose"]
 SCENE_CHECK = {"top": True, "setup": True, "subsetup": False, "compose": False, "subcompose": False}
 STYLES = ["min", "full", "rand"]
 NW = min(8, common.NCPU)
 
+# Ways in which the scenario owning the requirement ends (the requirement's window runs from the step the
+# statement takes effect to the last step that scenario executes):
+#   finish    its compose block runs off its end            termstmt  ... executes `terminate`
+#   term      its own `terminate when` becomes true         max       still running when simulate() hits maxSteps
+#   after     its OWN `terminate after K steps|seconds` (top-level scenario: a literal in the program, variant B)
+#   sublimit  the sub-scenario's own `terminate after N steps|seconds` (evaluated when it is invoked)
+#   dofor / dountil   the parent's `do Sub() for N steps|seconds` / `until c` stops it from outside
+#   pterm / pafter    the parent ends (its `terminate when` / its `terminate after`) while the sub-scenario runs
+MODES = {
+    "top": ["term", "max", "after"],
+    "setup": ["term", "max", "after", "finish", "termstmt"],
+    "compose": ["finish", "max", "termstmt", "term", "after"],
+    "subsetup": ["finish", "max", "termstmt", "sublimit", "sublimit-s", "dofor", "dofor-s", "dountil", "pterm", "pafter"],
+    "subcompose": ["finish", "max", "termstmt", "sublimit", "sublimit-s", "dofor", "dofor-s", "dountil", "pterm", "pafter"],
+}
+LATE_STOP = {"dofor", "dofor-s", "dountil", "pafter"}   # the scenario is stopped in the step after its last own step
+VARIANT_B = {"after", "pafter"}     # need the literal `terminate after` in the top-level scenario
+
+
+def limit_literal(site, lmax, seconds):
+    """(source line, K in steps, timestep) of the top-level scenario's time limit in variant B"""
+    k = lmax - 1 if site in ("top", "setup") else lmax
+    ind = "" if site == "top" else "        "
+    if seconds:
+        return f"{ind}terminate after {k * 0.5} seconds\n", k, 0.5
+    return f"{ind}terminate after {k} steps\n", k, 1
+
+
+def applicable(site, mode, L, lmax):
+    if mode == "max":
+        return L >= 2
+    if mode == "after":
+        return L == lmax if site in ("top", "setup") else L >= 2
+    if mode in ("sublimit", "sublimit-s"):
+        return L >= 2 or site == "subsetup"
+    return True
+
+
+def make_run(site, window, natoms, h, lmax, mode=None, allow_b=True, b_seconds=False):
+    """embed the requirement's window into a whole scripted simulation for this site; h: case hash (int).
+    Returns the run (with run['variant'] in 'A'|'B')."""
+    L = len(window)
+    frng = random.Random(h)
+    filler = lambda n: [[frng.randint(0, 1) for _ in range(natoms)] for _ in range(n)]
+    if mode is None:
+        ms = [m for m in MODES[site] if applicable(site, m, L, lmax) and (allow_b or m not in VARIANT_B)]
+        mode = ms[frng.randrange(len(ms))]
+    run = dict(mode=mode, variant="B" if mode in VARIANT_B else "A", offset=0, waits=L + 4, after=0, end="none", timestep=1)
+    top_level = site in ("top", "setup", "compose")
+    if top_level:
+        off = 0 if site != "compose" else frng.randrange(3)
+        if mode == "after":
+            _, k, ts = limit_literal(site, lmax, b_seconds)
+            off = 0 if site != "compose" else k - L + 1
+            run.update(timestep=ts)
+        elif mode in ("finish", "termstmt"):
+            run.update(waits=L - 1, termstmt=(mode == "termstmt"))
+        elif mode in ("term", "max"):
+            run.update(end=mode)
+        run.update(offset=off, table=filler(off) + window)
+        return run
+    off = frng.randrange(3)
+    after = frng.randrange(2)
+    tail = after
+    if mode in ("finish", "termstmt"):
+        run.update(waits=L - 1, termstmt=(mode == "termstmt"))
+    elif mode == "max":
+        after = tail = 0
+        run.update(end="max")
+    elif mode == "sublimit":
+        run.update(sublimit=1, subn=L - 1)
+    elif mode == "sublimit-s":
+        ts = frng.choice([0.5, 0.25])
+        run.update(sublimit=2, subn=(L - 1) * ts, timestep=ts)
+    elif mode == "dofor":
+        run.update(doform=1, dofor=L)
+        tail = after + 1
+    elif mode == "dofor-s":
+        ts = frng.choice([0.5, 0.25])
+        run.update(doform=2, dofor=L * ts, timestep=ts)
+        tail = after + 1
+    elif mode == "dountil":
+        run.update(doform=3, until=off + L)
+        tail = after + 1
+    elif mode == "pterm":
+        after = tail = 0
+        run.update(end="term")
+    elif mode == "pafter":
+        _, k, ts = limit_literal(site, lmax, b_seconds)
+        off, after, tail = k - L, 0, 1
+        run.update(timestep=ts)
+    run.update(offset=off, after=after, table=filler(off) + window + filler(tail))
+    return run
+
+
+END_MATRIX = ["G a0", "F a0", "X a0", "! X a0", "X X a0", "U a0 a1", "G F a0", "F G a0", "> a0 X a1"]
 CORPUS = [  # (formula tokens, natoms) always run on every site: F5 witnesses and end-of-trace distinctions
     ("G U a0 a1", 2), ("U a0 | F a1 a2", 3), ("U a0 a1", 2), ("G a0", 2), ("F a0", 2), ("X a0", 2), ("! X a0", 2),
     ("X X a0", 2), ("G > a0 X a1", 2), ("G F a0", 2), ("F G a0", 2), ("U G a0 a1", 2), ("U a0 G a1", 2),
@@ -56,23 +161,6 @@ def all_tables(natoms, maxlen):
         for bits in itertools.product([0, 1], repeat=natoms * L):
             out.append([list(bits[natoms * i:natoms * (i + 1)]) for i in range(L)])
     return out
-
-
-def make_run(site, window, natoms, h):
-    """embed the requirement's window into a whole scripted simulation for this site; h: case hash (int)"""
-    L = len(window)
-    if site in ("top", "setup"):
-        end = "term" if (L == 1 or h % 2 == 0) else "max"
-        return dict(table=window, offset=0, waits=0, after=0, end=end)
-    frng = random.Random(h)
-    offset = h % 3
-    after = 0 if site == "compose" else (h // 3) % 2
-    filler = lambda n: [[frng.randint(0, 1) for _ in range(natoms)] for _ in range(n)]
-    if L >= 2 and (h // 6) % 3 == 0:
-        # the scenario is still running when the simulation hits maxSteps: it is stopped from outside
-        # ("simulation terminated") and its requirement must be checked then
-        return dict(table=filler(offset) + window, offset=offset, waits=L + 4, after=0, end="max")
-    return dict(table=filler(offset) + window + filler(after), offset=offset, waits=L - 1, after=after, end="term")
 
 
 def first_false_now(f, window):
@@ -121,34 +209,43 @@ def main():
         body = json.load(open(c.replay))
         cs = body["case"]
         plan.append((F.parse_tokens(cs["formula"].split()), cs["natoms"], cs["site"], cs.get("style", "min"),
-                     [cs["window"]], cs.get("text")))
+                     [cs["window"]], cs.get("text"), dict(replay_run=cs.get("run"), replay_program=cs.get("program"))))
     else:
         for toks, na in CORPUS:
             f = F.parse_tokens(toks.split())
             for i, site in enumerate(SITE_ORDER):
-                plan.append((f, na, site, STYLES[i % 3], tables[na], None))
+                plan.append((f, na, site, STYLES[i % 3], tables[na], None, {}))
         d1 = F.all_formulas(1, 2)
         for j, f in enumerate(d1):
             for i, site in enumerate(SITE_ORDER):
-                plan.append((f, 2, site, STYLES[(i + j) % 3], tables[2], None))
+                plan.append((f, 2, site, STYLES[(i + j) % 3], tables[2], None, {}))
+        # every way of ending the scenario x the operators whose verdict depends on the last step x ALL tables
+        # up to length 3 (4 in the thorough tier), at every site
+        t3 = [t for t in tables[2] if len(t) <= (3 if quick else 4)]
+        for j, toks in enumerate(END_MATRIX):
+            f = F.parse_tokens(toks.split())
+            for i, site in enumerate(SITE_ORDER):
+                plan.append((f, 2, site, STYLES[(i + j) % 3], t3, None, dict(allmodes=True)))
         d2 = [f for f in F.all_formulas(2, 2) if F.depth(f) == 2]
         if quick:
-            d2 = rng.sample(d2, 180)
+            d2 = rng.sample(d2, 160)
         for j, f in enumerate(d2):
-            plan.append((f, 2, SITE_ORDER[j % 5], STYLES[(j // 5) % 3], tables[2], None))
-        nd3 = 50 if quick else 1000
+            plan.append((f, 2, SITE_ORDER[j % 5], STYLES[(j // 5) % 3], tables[2], None, dict(allow_b=(j % 2 == 0))))
+        nd3 = 40 if quick else 1000
         seen3 = set()
         while len(seen3) < nd3:
             f = F.random_formula(rng, 3, 2)
             if F.depth(f) == 3 and F.is_temporal(f):
                 seen3.add(f)
         for j, f in enumerate(sorted(seen3)):
-            plan.append((f, 2, SITE_ORDER[j % 5], STYLES[(j // 5) % 3], tables[2], None))
+            plan.append((f, 2, SITE_ORDER[j % 5], STYLES[(j // 5) % 3], tables[2], None, dict(allow_b=(j % 2 == 0))))
         if not quick:
             t5 = [t for t in all_tables(2, 5) if len(t) == 5]
             for j, f in enumerate(d2[::20]):
-                plan.append((f, 2, SITE_ORDER[j % 5], STYLES[j % 3], t5, None))
+                plan.append((f, 2, SITE_ORDER[j % 5], STYLES[j % 3], t5, None, {}))
 
+    if os.environ.get("VERIF_C11_DEV") == "matrix":      # development knob: only the end-of-scenario matrix
+        plan = [e for e in plan if e[6].get("allmodes")]
     # ---------------- processed in rounds of bounded size (memory), each: implementation || model, then compare
     nrec = {}
     state = dict(inexpressible=0, programs=0, model_s=0.0)
@@ -163,7 +260,7 @@ def main():
     rounds, cur, size = [], [], 0
     for idx, entry in enumerate(plan):
         cur.append((idx, entry))
-        size += len(entry[4])
+        size += len(entry[4]) * (6 if entry[6].get('allmodes') else 1)
         if size >= 180000:
             rounds.append(cur)
             cur, size = [], 0
@@ -179,7 +276,7 @@ def main():
     if os.environ.get("C11_DUMP"):
         with open(os.environ["C11_DUMP"], "w") as fh:
             json.dump([dict(kind=k, formula=r.get("formula"), site=r.get("site"), text=r.get("text"), window=r.get("window"),
-                            impl=r.get("impl"), model=r.get("model"), spec=r.get("spec_fltl"), shape=r.get("shape"))
+                            impl=r.get("impl"), model=r.get("model"), spec=r.get("spec_fltl"), shape=r.get("shape"), mode=(r.get("run") or {}).get("mode"))
                        for k, _, r, _ in c.violations], fh)
     c.assumptions += [
         "model = hand-written Gallina (coq/C11/LTL.v) of rv_ltl's monitor.py/b4.py and Scenic's per-step glue, tied to the code by this differential run",
@@ -193,7 +290,7 @@ def main():
 def process_round(c, rnd, exe, state, viol):
     import time
     jobs, meta, lines = [], [], []
-    for idx, (f, na, site, style, tabs, text) in rnd:
+    for idx, (f, na, site, style, tabs, text, opts) in rnd:
         toks = " ".join(F.tokens(f))
         if text is None:
             try:
@@ -202,15 +299,36 @@ def process_round(c, rnd, exe, state, viol):
                 state["inexpressible"] += 1
                 c.hist("inexpressible-in-grammar")
                 continue
-        runs = []
+        lmax = max(len(w) for w in tabs)
+        ehash = int(common.sha(json.dumps([toks, site]))[:8], 16)
+        b_seconds = ehash % 3 == 0
+        cases = []          # (window, run)
         for w in tabs:
             h = int(common.sha(json.dumps([toks, site, w]))[:8], 16)
-            runs.append(make_run(site, w, na, h))
-            lines.append(f"{1 if SCENE_CHECK[site] else 0} {na} 3 {','.join(''.join(map(str, r)) for r in w)} {toks}")
+            if opts.get("replay_run"):
+                cases.append((w, opts["replay_run"]))
+            elif opts.get("allmodes"):
+                for mode in MODES[site]:
+                    if applicable(site, mode, len(w), lmax):
+                        cases.append((w, make_run(site, w, na, h, lmax, mode=mode, b_seconds=b_seconds)))
+            else:
+                cases.append((w, make_run(site, w, na, h, lmax, allow_b=opts.get("allow_b", True), b_seconds=b_seconds)))
         # most programs create no object (simulations are ~6x faster); the corpus formulas run with an ego
         ego = "ego = new Object" if (idx < len(CORPUS) * len(SITE_ORDER) or c.replay) else "pass"
-        jobs.append(dict(id=len(jobs), src=SITES[site].replace("{F}", text).replace("{EGO}", ego), runs=runs))
-        meta.append(dict(f=f, toks=toks, natoms=na, site=site, style=style, text=text, windows=tabs))
+        m = dict(f=f, toks=toks, natoms=na, site=site, style=style, text=text, cases=[], first_line=len(lines))
+        for variant in ("A", "B"):
+            sel = [cs for cs in cases if cs[1].get("variant", "A") == variant]
+            if not sel:
+                continue
+            limit = limit_literal(site, lmax, b_seconds)[0] if variant == "B" else ""
+            src = SITES[site].replace("{F}", text).replace("{EGO}", ego).replace("{LIMIT}", limit)
+            if opts.get("replay_program"):
+                src = opts["replay_program"]
+            jobs.append(dict(id=len(jobs), src=src, runs=[r for _, r in sel]))
+            for w, r in sel:
+                m["cases"].append((w, r, len(jobs) - 1, src))
+                lines.append(f"{1 if SCENE_CHECK[site] else 0} {na} 3 {','.join(''.join(map(str, r)) for r in w)} {toks}")
+        meta.append(m)
 
     # balance jobs over workers by number of runs
     order = sorted(range(len(jobs)), key=lambda i: -len(jobs[i]["runs"]))
@@ -230,48 +348,59 @@ def process_round(c, rnd, exe, state, viol):
                 results[r["id"]] = r
 
     # ---------------- compare
-    li = 0
-    for jid, m in enumerate(meta):
-        r = results[jid]
+    for m in meta:
         f, site = m["f"], m["site"]
         sh = F.shape(f)
-        nlines = len(m["windows"])
-        mlines = model[li:li + nlines]
-        li += nlines
         base = dict(formula=m["toks"], text=m["text"], natoms=m["natoms"], site=site, style=m["style"], shape=sh)
-        if r["compile"] != "ok":
-            c.count((m["toks"], site, m["style"]))
+        bad_jobs = sorted({jid for _, _, jid, _ in m["cases"] if results[jid]["compile"] != "ok"})
+        for jid in bad_jobs:
+            c.count((m["toks"], site, m["style"], jid))
             c.hist("compile-error")
+            w0 = next(w for w, _, j, _ in m["cases"] if j == jid)
             viol("parse", "a formula written following scenic.gram's temporal rules does not compile",
-                        dict(base, window=m["windows"][0], error=r["compile"], program=jobs[jid]["src"]))
-            continue
+                 dict(base, window=w0, error=results[jid]["compile"], program=jobs[jid]["src"]))
         c.hist("site:" + site)
         c.hist("depth:%d" % sh["depth"])
         c.hist("style:" + m["style"])
         for op in sh["ops"]:
             c.hist("op:" + op)
         always_now = f[0] == "G" and not F.is_temporal(f[1])
-        for w, run, impl, ml in zip(m["windows"], jobs[jid]["runs"], r["outcomes"], mlines):
+        pos = {}
+        last = None
+        for n, (w, run, jid, src) in enumerate(m["cases"]):
+            ml = model[m["first_line"] + n]
+            if jid in bad_jobs:
+                continue
+            k = pos.get(jid, 0)
+            pos[jid] = k + 1
+            impl = results[jid]["outcomes"][k]
             L = len(w)
             mo, spec, frag, verdicts, ext = ml.split()
             off = run["offset"]
             if mo.startswith("R"):
-                mo_abs = "R%d" % (int(mo[1:]) + off)
+                t_abs = int(mo[1:]) + off
+                # a scenario stopped from outside one step after its last own step is rejected (falsy last verdict) there
+                if run["mode"] in LATE_STOP and int(mo[1:]) == L - 1 and verdicts[-1] != "F":
+                    t_abs += 1
+                mo_abs = "R%d" % t_abs
             else:
                 mo_abs = mo
-            c.count((m["toks"], site, m["style"], w), nontrivial=sh["temporal"] and L >= 2)
+            c.count((m["toks"], site, m["style"], w, run["mode"]), nontrivial=sh["temporal"] and L >= 2)
             c.cov["traces_validated_against_impl"] += 1
             c.hist("len:%d" % L)
+            c.hist("end:" + run["mode"])
             c.hist("outcome:" + (impl[0] if impl[0] in "AGR" else impl.split(":")[1]))
             case = dict(base, window=w, run=run, impl=impl, model=mo_abs, model_verdicts=verdicts,
-                        spec_fltl=(spec == "1"), program=jobs[jid]["src"])
+                        spec_fltl=(spec == "1"), program=src)
+            last = (w, impl, ml)
             if frag != ("0" if sh["until_below_temporal"] else "1") + ("0" if (sh["until_below_temporal"] or sh["until_temporal_rhs"]) else "1"):
                 viol("harness", "fragment classification differs between harness and Coq model", case, no_input=True)
             # (a) correspondence model <-> implementation
             if impl != mo_abs:
                 c.cov["disagreements_checked"] += 1
                 kind = "correspondence-compose" if site in ("compose", "subcompose") else "correspondence"
-                viol(kind, "the implementation's accept/reject outcome differs from the model of rv_ltl + Scenic's glue", case)
+                viol(kind, "the implementation's accept/reject outcome differs from the model of rv_ltl + Scenic's glue "
+                     f"(scenario ended by: {run['mode']})", case)
                 if not impl[0] in "AGR":
                     continue
             # (b) property oracle on what the implementation did
@@ -283,19 +412,20 @@ def process_round(c, rnd, exe, state, viol):
                 t_rel = 0
                 before_end = impl == "G" and L > 1
             if accepted != (spec == "1"):
-                viol("spec-accept", "accepted a trace violating the formula" if accepted else
-                            "rejected a trace satisfying the formula (finite-trace LTL, strong next/until)",
-                            dict(case, rejected_before_end=before_end))
+                viol("spec-accept", ("accepted a trace violating the formula" if accepted else
+                     "rejected a trace satisfying the formula (finite-trace LTL, strong next/until)") + f" (scenario ended by: {run['mode']})",
+                     dict(case, rejected_before_end=before_end))
             if not accepted and before_end and impl == mo_abs and ext.startswith("sat:"):
                 viol("spec-early-reject", "rejected before the end of the scenario although a continuation satisfies the formula",
-                            dict(case, satisfying_continuation=ext[4:]))
+                     dict(case, satisfying_continuation=ext[4:]))
             if always_now:
                 t0 = first_false_now(f, w)
                 want = "A" if t0 is None else ("G" if (t0 == 0 and SCENE_CHECK[site]) else "R%d" % (t0 + off))
                 if impl != want:
                     viol("spec-always-immediate", "`always` of a non-temporal condition did not reject exactly when the condition became false",
-                                dict(case, expected=want))
-        c.sample(dict(formula=m["toks"], text=m["text"], site=site, window=m["windows"][-1], impl=r["outcomes"][-1], model=mlines[-1]), limit=8)
+                         dict(case, expected=want))
+        if last:
+            c.sample(dict(formula=m["toks"], text=m["text"], site=site, window=last[0], impl=last[1], model=last[2]), limit=8)
     state["programs"] += len(jobs)
 
 
